@@ -5,26 +5,40 @@ import sys
 
 from vlib import core
 
-GENERATORS = ["translate.sgtables", "translate.latrules"]
+
+
+def generators():
+    """Every translate/*.py that sets SETUP = True and defines generate()."""
+    out = []
+    d = os.path.join(core.VERIF, "translate")
+    for f in sorted(os.listdir(d)):
+        if f.endswith(".py") and not f.startswith("_"):
+            txt = open(os.path.join(d, f)).read()
+            if "SETUP = True" in txt and "def generate" in txt:
+                out.append("translate." + f[:-3])
+    return out
 
 
 def run():
     with core.BuildLock():
         os.makedirs(core.GEN, exist_ok=True)
-        for g in GENERATORS:
+        for g in generators():
             try:
                 mod = importlib.import_module(g)
                 for rel, text in mod.generate().items():
                     core.write_if_changed(os.path.join(core.COQ, rel), text)
-            except core.TranslatorRefusal as e:
+            except (core.TranslatorRefusal, SyntaxError) as e:
                 print("setup: translator %s refused: %s (the per-property check will report it)" % (g, e))
         core.ensure_makefile()
         rc, out = core.sh("timeout 3000 make -k -j%d 2>&1 | grep -v '^COQC\\|^COQDEP' | tail -40" % core.NPROC, cwd=core.COQ)
         print(out)
         ext = os.path.join(core.VERIF, "ocaml")
-        if os.path.exists(os.path.join(ext, "build.sh")):
-            rc2, out2 = core.sh("bash build.sh", cwd=ext, timeout=900)
-            print(out2[-2000:])
+        if os.path.isdir(ext):
+            for d in sorted(os.listdir(ext)):
+                b = os.path.join(ext, d, "build.sh")
+                if os.path.exists(b):
+                    rc2, out2 = core.sh("timeout 900 bash build.sh", cwd=os.path.join(ext, d), timeout=930)
+                    print("ocaml/%s: rc=%d\n%s" % (d, rc2, out2[-1500:]))
     hits = core.scan_forbidden()
     for h in hits:
         print("forbidden vernacular: %s:%d %s" % h)
